@@ -489,7 +489,7 @@ class SwapRace(SyncSuite):
     name = "swaprace"
     focus = ("c01",)
     unpriv_share = 0
-    n_cases = {"quick": 960, "thorough": 8000, "search": 480}
+    n_cases = {"quick": 1920, "thorough": 12000, "search": 480}
     rule = ("destination directory (with children) vs source non-directory of the same name (FIFO 60%, device, file, symlink), at depth 0..2, 1..3 such pairs per case; "
             "8 harness processes pinned to two CPUs together with 4 busy loops; a transfer that blocks (watchdog: 1.5 s without stream traffic) or fails is a "
             "violation; oracle otherwise as suite sync; non-trivial = every case (each has a swapped directory)")
